@@ -126,7 +126,11 @@ def acLine (d : ACDrv) (lineNo : Nat) (ts : List String) : ACDrv × List String 
   | "player" :: rest =>
     match kv rest "status", kvInt rest "atime", (kv rest "waited").bind boolOf, kv rest "st", kvInt rest "gi", parseView rest, kv post "call", kvInt post "delay_ms" with
     | some status, some atime, some waited, some st, some gi, some v, some call, some delay =>
-      let pst : PStatus := if status == "suspend" then .suspend else if status == "idle" then .idle else .running
+      -- a path of idle reports / suspensions / come-backs before the request: where it leaves the player is the model's
+      -- status machine's to say
+      let pst : PStatus := match kv rest "pre" with
+        | some path => (pRun {} path.toList).status
+        | none => if status == "suspend" then .suspend else if status == "idle" then .idle else .running
       let asked := st == "playing" && gi ≥ 0 && (match v.players[gi.toNat]? with | some p => !p.allowed.isEmpty | none => false)
       let plan : Plan := if asked then requestMove pst atime v gi.toNat else .nothing
       -- what the runner should have done, as a string comparable with the observation
@@ -154,7 +158,7 @@ def acLine (d : ACDrv) (lineNo : Nat) (ts : List String) : ACDrv × List String 
          | none => []) ++
         (if expect.2 && call != "none" && callKind != "early" && delay < atime * 1000 - 50 then ["C19.auto-play-acted-before-the-thinking-time-elapsed"] else [])
       let (d, o) := viol d vs
-      let d := { d with cnt := ((d.cnt.bump "player.cases").bump (if (kv rest "lvlup").getD "0" == "1" then "player.level-changed-mid-hand" else "player.level-unchanged")).bump ("player." ++ (if expect.1 == "none" then "none" else if expect.1 == "armed" then "armed" else (expect.1.splitOn ":").head!)) }
+      let d := { d with cnt := (((d.cnt.bump "player.cases").bump (if (kv rest "pre").isSome then "player.status-path" else "player.status-direct")).bump (if (kv rest "lvlup").getD "0" == "1" then "player.level-changed-mid-hand" else "player.level-unchanged")).bump ("player." ++ (if expect.1 == "none" then "none" else if expect.1 == "armed" then "armed" else (expect.1.splitOn ":").head!)) }
       if call == expect.1 then (d, o)
       else ({ d with mismatches := d.mismatches + 1 }, mism d s!"player-runner status={status} at={atime} model={expect.1} impl={call}" ++ o)
     | _, _, _, _, _, _, _, _ => (d, [s!"BADLINE {lineNo} ac-player"])
